@@ -412,6 +412,42 @@ pub fn run_c18(run: &mut Run) -> Stats {
             }
             std::fs::OpenOptions::new().write(true).open(&path).unwrap().set_modified(mtime0).unwrap();
         }
+        // (e) modification times before the epoch and far in the future: validators must still
+        // be produced (no panic), valid, and serve() must answer
+        for (what, t) in [("1969", std::time::UNIX_EPOCH - std::time::Duration::from_secs(86_400)), ("1901", std::time::UNIX_EPOCH - std::time::Duration::new(2_177_452_800, 500_000_000)), ("year-9999", std::time::UNIX_EPOCH + std::time::Duration::from_secs(253_402_300_799))] {
+            let w = std::fs::OpenOptions::new().write(true).open(&path).unwrap();
+            if w.set_modified(t).is_err() || std::fs::metadata(&path).unwrap().modified().unwrap() != t {
+                st.count(&format!("mtime_{what}_not_kept_by_fs"), 1);
+                continue;
+            }
+            drop(w);
+            st.count(&format!("mtime_{what}_checked"), 1);
+            let r = catch_unwind(AssertUnwindSafe(|| {
+                let c = Crf::new(File::open(&path).unwrap(), HeaderMap::new()).unwrap();
+                let e = c.etag().map(|v| v.as_bytes().to_vec());
+                let lm = c.last_modified();
+                let req = http::Request::builder().method("GET").body(()).unwrap();
+                let status = http_serve::serve(c, &req).status().as_u16();
+                (e, lm, status)
+            }));
+            match r {
+                Err(p) => fs.push(fnd(&["C18"], format!("validators-panic:{what}"), format!("file with modification time {what}: etag()/last_modified()/serve() panicked: {}", panic_msg(p)))),
+                Ok((e, lm, status)) => {
+                    if !e.as_ref().map(|e| etag_ok(e)).unwrap_or(false) {
+                        fs.push(fnd(&["C18"], "etag-syntax", format!("mtime {what}: etag {:?}", e.map(|e| String::from_utf8_lossy(&e).to_string()))));
+                    } else if e == e0 {
+                        fs.push(fnd(&["C18"], format!("etag-same-after-mtime-{what}"), format!("etag unchanged after the modification time moved to {what}")));
+                    }
+                    if lm != Some(t) {
+                        fs.push(fnd(&["C18"], "last-modified", format!("mtime {what}: last_modified() {lm:?}")));
+                    }
+                    if status != 200 {
+                        fs.push(fnd(&["C18"], "serve-status", format!("mtime {what}: plain GET answered {status}")));
+                    }
+                }
+            }
+            std::fs::OpenOptions::new().write(true).open(&path).unwrap().set_modified(mtime0).unwrap();
+        }
         // (d) replaced by an identical copy (new inode), same mtime
         {
             let tmp = base.join(format!("f{len}.copy"));
